@@ -60,6 +60,7 @@ prop(
 
 prop(
     "C13", "exploration",
+    memcheck=3,
     rule="one evaluation = one complete paged query (all pages followed through last_cursor) compared with the list computed from an independent decoding of the raw key-value dump; "
          "a cell = (query kind, order/grouping, filter kinds, paging class, search kind exact/prefix/longer/wrong-type)",
     sizes=tiers(16, 2400, 60, 16, 200000, 900, min_evals=10000, min_cells=40),
@@ -92,6 +93,7 @@ prop(
 
 prop(
     "C10", "exploration",
+    memcheck=40,
     rule="one evaluation = one handler invocation (message or timer) wrapped in catch_unwind with overflow checks on; a cell = (message kind, peer state at delivery, generator class, outcome ok/ban/PANIC)",
     sizes=tiers(16, 120, 60, 16, 8000, 900, min_evals=20000, min_cells=150),
     technique="runtime monitoring: seeded state-aware grammar + boundary-value mutation of live honest answers + truncation / bit-flip / random-byte fuzzing at the received() boundary, panic capture, overflow-checking build, shard exit status",
@@ -137,6 +139,7 @@ prop(
 
 prop(
     "C17", "fault_enumeration",
+    memcheck=1,
     rule="one evaluation = one pause-point experiment on real threads: operation A is parked before its k-th storage write, operation B runs on another thread, A is released, and the final state "
          "(script set with numbers, filter progress, persisted and in-memory matched blocks, index digest) is compared with the two serial outcomes computed on replays of the same S0; "
          "every ordered pair of {set_scripts all / partial / delete, BlockFilters processing, SendBlock completing a batch} x every write boundary k of A is run; a cell = (A, B, k, B finished while A parked?, lock free at the pause?, serial order matched)",
